@@ -317,8 +317,14 @@ structure Outcome where
   halted : Bool
   deriving Repr, Inhabited
 
-/-- Run the rest of a schedule. A crash or hang ends it: the state reported is the one before the
-    fatal step (what the step itself emitted races with the crash and is not compared). -/
+/-- The state reported when a step is fatal: the one before the step (what the step itself emitted races with
+    the crash and is not compared). After a hang the executor lives on, so an armed TASK_RUNNING timer still fires. -/
+def haltState (s : St) (r : Res) : St :=
+  match r with
+  | .hang => finish s
+  | _ => s
+
+/-- Run the rest of a schedule. A crash or hang ends it. -/
 def runFrom (s : St) : List Op → Outcome
   | [] => { st := finish s, res := [], halted := false }
   | op :: ops =>
@@ -327,7 +333,7 @@ def runFrom (s : St) : List Op → Outcome
       { o with res := .dead :: o.res }
     else
       let (s', r) := step s op
-      if r.halts then { st := s, res := [r], halted := true }
+      if r.halts then { st := haltState s r, res := [r], halted := true }
       else
         let o := runFrom s' ops
         { o with res := r :: o.res }
